@@ -83,6 +83,11 @@ class DataFlow:
                 for sub in walk_local(a):
                     if isinstance(sub, ast.NamedExpr) and isinstance(sub.target, ast.Name):
                         ds.append(Def(n.id, sub.target.id, sub.value, "assign", a))
+            elif n.kind == "test":
+                # `if (p := self._merge_parent):`
+                for sub in walk_local(a):
+                    if isinstance(sub, ast.NamedExpr) and isinstance(sub.target, ast.Name):
+                        ds.append(Def(n.id, sub.target.id, sub.value, "assign", a))
             elif n.kind == "for":
                 for (name, whole) in _target_names(a.target):
                     ds.append(Def(n.id, name, a.iter, "for", a))
